@@ -298,6 +298,13 @@ def gen_response_trace(rng, tid):
         ops += [{"op": "login", "c": m, "user": "iggy", "password": "iggy"}, {"op": "join_group", "stream": 1, "topic": 1, "group": 1, "c": m}]
     ops += [{"op": "create_user", "user": "resp-user", "password": "resp-password", "perms": {"g": rng.randrange(1, 1024), "streams": [[1, rng.randrange(64), [[1, rng.randrange(16)]]]]}},
             {"op": "create_user", "user": "resp-off", "password": "resp-password", "inactive": True}]
+    # nested permission records (several streams with several topics each), written over both transports
+    deep = {"g": rng.randrange(1, 1024), "streams": [[sid, rng.randrange(64), [[tid, rng.randrange(16)] for tid in range(1, rng.randrange(2, 5))] if rng.random() < 0.8 else None]
+                                                      for sid in range(1, rng.randrange(3, 5))]}
+    ops += [{"op": "create_user", "user": "deep-tcp", "password": "resp-password", "perms": deep},
+            {"op": "create_user", "user": "deep-http", "password": "resp-password", "perms": deep, "c": "httproot"},
+            {"op": "create_user", "user": "deep-upd", "password": "resp-password"},
+            {"op": "update_permissions", "uid": "deep-upd", "perms": deep, "c": rng.choice(["root", "httproot"])}]
     sent = {p: [] for p in range(1, nparts + 1)}
     mid = 0
     kinds = list(range(1, 16))
@@ -324,7 +331,8 @@ def gen_response_trace(rng, tid):
     reads = [{"op": "get_streams"}, {"op": "get_stream", "stream": 1}, {"op": "get_stream", "stream": "rs"}, {"op": "get_topics", "stream": 1},
              {"op": "get_topic", "stream": 1, "topic": 1}, {"op": "get_topic", "stream": "rs", "topic": "other"},
              {"op": "get_groups", "stream": 1, "topic": 1}, {"op": "get_group", "stream": 1, "topic": 1, "group": 1}, {"op": "get_group", "stream": 1, "topic": 1, "group": "idle"},
-             {"op": "get_users"}, {"op": "get_user", "uid": "resp-user"}, {"op": "get_user", "uid": "resp-off"}, {"op": "get_user", "uid": 1}]
+             {"op": "get_users"}, {"op": "get_user", "uid": "resp-user"}, {"op": "get_user", "uid": "resp-off"}, {"op": "get_user", "uid": 1},
+             {"op": "get_user", "uid": "deep-tcp"}, {"op": "get_user", "uid": "deep-http"}, {"op": "get_user", "uid": "deep-upd"}]
     polls = {}
     for p in range(1, nparts + 1):
         reads.append({"op": "get_offset", "stream": 1, "topic": 1, "partition": p, "consumer": {"kind": "consumer", "id": 5}})
@@ -337,6 +345,7 @@ def gen_response_trace(rng, tid):
         ops.append(dict(r, c="httproot"))
         pairs.append((base + 2 * i, base + 2 * i + 1, polls.get(i)))
     grp = base + 2 * 7
+    deep_at = [base + 2 * 13, base + 2 * 14, base + 2 * 15]
     # the raw bytes of two responses (Model/WireResp.v): the polls above and the group details, fetched over a raw socket
     raw = {"polls": {}, "group": None}
     for i, r in enumerate(reads):
@@ -346,7 +355,7 @@ def gen_response_trace(rng, tid):
     ops.append({"op": "raw_cmd", "kind_of": "get_group", "stream": 1, "topic": 1, "group": 1})
     raw["group"] = (len(ops) - 1, grp)
     return {"id": tid, "cfg": {"req": rng.choice([1, 1000]), "seg_size": 1000000, "cache": rng.random() < 0.5}, "ops": ops,
-            "marks": {"pairs": pairs, "sent": sent, "group_at": grp, "members": len(members), "nparts": nparts, "raw": raw}}
+            "marks": {"pairs": pairs, "sent": sent, "group_at": grp, "members": len(members), "nparts": nparts, "raw": raw, "deep_at": deep_at}}
 
 
 def run_responses(out, tier, seed):
@@ -383,6 +392,11 @@ def run_responses(out, tier, seed):
                     hdr_kinds.update(h[1] for h in m.get("headers", []))
                 if got != want or not all(x["pok"] and x["cok"] for x in oa["msgs"]):
                     problem = (a, "polled messages differ from the messages sent (ids, payloads, header keys / kinds / values)", got, want)
+                    break
+            if a == mk["deep_at"][0] and not problem:
+                d0, d1, d2 = (outs[i].get("perms_full") for i in mk["deep_at"])
+                if d0 is None or d0 != d1 or d0 != d2:
+                    problem = (a, "the same nested permission record, written over the binary protocol, over HTTP/JSON and by an update, is read back as different records", d0, [d1, d2])
                     break
             if a == mk["group_at"]:
                 owned = sorted(p for m in oa.get("members", []) for p in m["parts"])
